@@ -338,6 +338,17 @@ func extPoolPut(fr *frame, a []value) value {
 	}
 	i.raceRelease(p)
 	ps := i.poolOf(p)
+	// pool monitor: an object that is already in the free list is put again (double release):
+	// two later Get calls would hand the same object to two owners
+	if xp, ok := x.v.(*value); ok && xp != nil {
+		for _, it := range ps.items {
+			if ip, ok := it.(iface); ok {
+				if q, ok := ip.v.(*value); ok && q == xp {
+					i.violation("pool_double_put", "sync.Pool.Put of an object that is already in the pool (released twice): "+x.t.String(), i.tape())
+				}
+			}
+		}
+	}
 	ps.items = append(ps.items, x)
 	if i.epoch {
 		i.undoFns = append(i.undoFns, func() { ps.items = ps.items[:len(ps.items)-1] })
